@@ -106,6 +106,10 @@ func VerifC17_SharedContext() {
 	verifReach("end")
 }
 
+// verifForeignCtx is an FContext implementation from outside the package: a decorator
+// that embeds the interface (no Clone / ephemeral properties of its own).
+type verifForeignCtx struct{ FContext }
+
 // (c) a clone starts equal (except for a fresh op id) and is fully independent.
 func VerifC17_CloneIndependent() {
 	maxLen := verifBound()
@@ -132,10 +136,14 @@ func VerifC17_CloneIndependent() {
 	c.SetTimeout(time.Duration(verifChoice(3)) * 1500 * time.Millisecond)
 
 	var cl FContext
-	if verifParam() == 0 {
+	switch verifParam() {
+	case 0:
 		cl = c.Clone()
-	} else {
+	case 1:
 		cl = Clone(c)
+	default: // a decorator that only implements FContext: the generic branch of Clone
+		cl = Clone(verifForeignCtx{c})
+		verifReach("foreign-context")
 	}
 	// starts equal except for the op id
 	a, b := c.RequestHeaders(), cl.RequestHeaders()
@@ -151,16 +159,22 @@ func VerifC17_CloneIndependent() {
 	verifAssert(cl.Timeout() == c.Timeout(), "timeout equal")
 	if ce, ok := cl.(FContextWithEphemeralProperties); ok {
 		p, has := ce.EphemeralProperty("prop")
-		verifAssert(has == hasProp && (!has || p == 7), "ephemeral properties equal")
+		// (a foreign context exposes no ephemeral properties, so its clone has none)
+		want := hasProp && verifParam() < 2
+		verifAssert(has == want && (!has || p == 7), "ephemeral properties equal")
 	}
 
 	// a sibling clone taken in the same state
 	var sib FContext
-	if verifParam() == 0 {
+	switch verifParam() {
+	case 0:
 		sib = c.Clone()
-	} else {
+	case 1:
 		sib = Clone(c)
+	default:
+		sib = Clone(verifForeignCtx{c})
 	}
+	verifAssert(verifOpID(sib) != verifOpID(cl) && verifOpID(sib) != verifOpID(c) && verifOpID(cl) != verifOpID(c), "original, clone and sibling clone carry three different op ids")
 	sibReq, sibResp := sib.RequestHeaders(), sib.ResponseHeaders()
 
 	// mutate one side, observe the other
